@@ -1,6 +1,7 @@
 package main
 
 import (
+	"bytes"
 	"fmt"
 	"math/rand"
 	"regexp"
@@ -71,7 +72,17 @@ func oracleC04Styled(p *Pair, env *Env, style string, a [][]byte) *Failure {
 	// decompose the word as the property describes it
 	w := word
 	if strings.HasPrefix(w, "'") {
-		return nil // verbatim regex: covered by C01
+		// "a leading `'` passes the rest of the line through untouched": alone in its block, the line compiles to what
+		// the rest of the line compiles to as an ordinary entry (other embeddings: C01's language oracle)
+		if wrap != "alone" || len(w) < 2 {
+			return nil
+		}
+		plain := p.Impl(Op{"gen.run", append(append([][]byte{}, cfg...), []byte(w[1:]+"\n"))}, env.timeout)
+		if plain.Status == "ok" && !bytes.Equal(plain.Out[0], g.Out[0]) {
+			return &Failure{What: "a verbatim cmdline line (leading `'`) is not passed through untouched",
+				Detail: fmt.Sprintf("block %q gives %q; the entry %q alone gives %q", prog, g.Out[0], w[1:], plain.Out[0])}
+		}
+		return nil
 	}
 	demand := ""
 	if len(w) >= 2 {
